@@ -131,6 +131,7 @@ class GpLinearInverter:
         self.cov_slice = slice(self.mean.n_params, self.n_hyperpars)
         self.hyperpar_labels = [*self.mean.hyperpar_labels, *self.cov.hyperpar_labels]
 
+        y_err = y_err.astype(float)
         self.sigma = diag(y_err**2)
         self.inv_sigma = diag(y_err**-2.0)
         self.I = eye(self.A.shape[1])
